@@ -155,6 +155,10 @@ fn exec_live(fams_cfg: Vec<Fam>, po: Vec<u8>, delay: bool) -> String {
         let addr = listener.local_addr().unwrap();
         let _client = crate::retry_io!(tokio::net::TcpStream::connect(addr).await);
         let (server, _) = crate::retry_io!(listener.accept().await);
+        // closed with a reset: no TIME_WAIT entry per line (the thorough tier opens ~90 000 connections in two minutes,
+        // more than the ephemeral port range can hold for 60 s each)
+        let _ = _client.set_linger(Some(std::time::Duration::ZERO));
+        let _ = server.set_linger(Some(std::time::Duration::ZERO));
         let (rd, _wr) = server.into_split();
         let (tx, mut rx) = tokio::sync::mpsc::channel::<SessMsg>(64);
         let (_cmd_tx, cmd_rx) = tokio::sync::mpsc::channel::<Command>(16);
@@ -246,6 +250,8 @@ fn exec_live2(fams_cfg: Vec<Fam>, po1: Vec<u8>, po2: Vec<u8>) -> String {
         let addr = listener.local_addr().unwrap();
         let _client1 = crate::retry_io!(tokio::net::TcpStream::connect(addr).await);
         let (server, _) = crate::retry_io!(listener.accept().await);
+        let _ = _client1.set_linger(Some(std::time::Duration::ZERO));
+        let _ = server.set_linger(Some(std::time::Duration::ZERO));
         let (rd, _wr) = server.into_split();
         let (tx, mut rx) = tokio::sync::mpsc::channel::<SessMsg>(64);
         let (_cmd_tx, cmd_rx) = tokio::sync::mpsc::channel::<Command>(16);
@@ -269,6 +275,8 @@ fn exec_live2(fams_cfg: Vec<Fam>, po1: Vec<u8>, po2: Vec<u8>) -> String {
         // connection #2: the peer connects again and sends its new OPEN; the stream goes to the same Session
         let mut client2 = crate::retry_io!(tokio::net::TcpStream::connect(addr).await);
         let (server2, _) = crate::retry_io!(listener.accept().await);
+        let _ = client2.set_linger(Some(std::time::Duration::ZERO));
+        let _ = server2.set_linger(Some(std::time::Duration::ZERO));
         let _ = client2.write_all(&po2).await;
         let (rd2, _wr2) = server2.into_split();
         match tokio::time::timeout(std::time::Duration::from_secs(5), s.attach_stream(rd2)).await { Ok(()) => {}, Err(_) => return "L2 attach-hang".to_string() }
